@@ -211,6 +211,12 @@ class Taint:
     def run(self):
         mod = self.mod
         fns = [f for n, f in mod.functions.items() if n not in self.skip]
+        self._allfns = fns
+        # side-effect-free helpers (no load/store/call) are evaluated per call site: result depends on the arguments there
+        self.pure = set()
+        for f in fns:
+            if all(i.op not in ('load', 'store', 'call', 'invoke') for i in f.instructions()):
+                self.pure.add(f.name)
         for f in fns:
             self.cd[f.name] = control_deps(f)[0]
             self.tctl[f.name] = set()
@@ -237,7 +243,11 @@ class Taint:
                     elif ins.op in ('call', 'invoke'):
                         cn = callee_name(ins)
                         callee = mod.functions.get(cn) if cn else None
-                        if callee is not None and cn not in self.skip:
+                        if callee is not None and cn in self.pure:
+                            for i, (ty, v) in enumerate(ins.ops):
+                                if self._tainted(f, v):
+                                    t, why = True, 'result of pure helper %s with tainted argument at %s' % (cn, ins.loc())
+                        elif callee is not None and cn not in self.skip:
                             for i, (ty, v) in enumerate(ins.ops):
                                 if self._tainted(f, v) and (cn, i) not in self.tparam:
                                     self.tparam.add((cn, i))
